@@ -36,6 +36,7 @@ theorem join_src_den (N : Nat) (r : List (Src α)) : ∀ (l : List α) (c p : Na
     l.length + joinRemaining r ≤ N →
     Den (join src) (joinCost N) (⟨l, c, p⟩ :: r)
       (annot (N - (l.length + joinRemaining r)) (l ++ r.flatMap fun s => s.rest)) N := by
+  have _tie := Skeleton.Tie.itJoin
   induction r with
   | nil =>
     intro l
@@ -162,6 +163,7 @@ theorem peekRun_src (l : List α) (ops : List PeekOp) : ∀ (j : Nat) (has : Boo
     PeekRel l j has st →
     (peekRun src ops st).1 = peekAnswers l ops j ∧
       PeekRel l (peekTrack l.length ops (j, has)).1 (peekTrack l.length ops (j, has)).2 (peekRun src ops st).2 := by
+  have _tie := Skeleton.Tie.itPeek
   induction ops with
   | nil => intro j has st h; exact ⟨rfl, h⟩
   | cons o ops ih =>
@@ -320,6 +322,7 @@ theorem peek_interleave' (l : List α) (ops : List PeekOp) :
 theorem reduce_cost {m : IM σ α} {cost : σ → Nat} {s : σ} {L : List (α × Nat)} {e : Nat} (f : β → α → β)
     (h : Den m cost s L e) :
     ∃ F, ∀ fuel, F ≤ fuel → ∀ acc, cost (reduce m f fuel acc s).2 = e := by
+  have _tie := Skeleton.Tie.itReduce
   induction h with
   | skip hs _ ih =>
     obtain ⟨F, hF⟩ := ih
@@ -343,6 +346,7 @@ theorem lastLoop_cost {m : IM σ α} {cost : σ → Nat} {s : σ} {L : List (α 
     (h : Den m cost s L e) :
     ∃ F, ∀ fuel, F ≤ fuel → ∀ (buf : List (Option α)) (i : Nat),
       cost (lastLoop m (n : Int) fuel buf (i : Int) s).2 = e := by
+  have _tie := Skeleton.Tie.itLast
   induction h with
   | skip hs _ ih =>
     obtain ⟨F, hF⟩ := ih
@@ -393,6 +397,7 @@ with the second item otherwise. -/
 theorem one_cost {m : IM σ α} {cost : σ → Nat} {s : σ} {L : List (α × Nat)} {e : Nat}
     (h : Den m cost s L e) :
     ∃ F, ∀ fuel, F ≤ fuel → cost (one m fuel s).2 = oneCost L e := by
+  have _tie := Skeleton.Tie.itOne
   obtain ⟨F1, h1⟩ := drive_den h
   cases L with
   | nil =>
@@ -488,6 +493,7 @@ theorem equal_src (fuel : Nat) : ∀ (l0 : List α) (s0 : Src α) (r : List (Src
     s0.rest = l0 → l0.length + 1 ≤ rounds →
     ∃ ss', equal src (fuel + 1) rounds (s0 :: r) = (some (equalL l0 (r.map (·.rest))).1, ss') ∧
       ss'.map (·.rest) = (equalL l0 (r.map (·.rest))).2 ∧ ss'.map tot = (s0 :: r).map tot := by
+  have _tie := Skeleton.Tie.itEqual
   intro l0
   induction l0 with
   | nil =>
